@@ -146,6 +146,7 @@ class NetfileMixin(object):
 
         self.dirname = dirname(pathname)
         self._netfile_add(pathname)
+        self._invalidate()
 
     def _netfile_add(self, pathname, namespace=''):
         """Add the nets from file with specified pathname"""
